@@ -365,6 +365,18 @@ def build_molecule(name, gi, uhf, seed):
     return mol
 
 
+def ints_distance(a, b):
+    """max |difference| between two (core, one-body, two-body) integral sets (RHF arrays or UHF tuples/lists of arrays)."""
+    def flat(x):
+        if isinstance(x, (tuple, list)):
+            return [y for z in x for y in flat(z)]
+        return [np.asarray(x, dtype=float)]
+    fa, fb = flat(a), flat(b)
+    if len(fa) != len(fb) or any(x.shape != y.shape for x, y in zip(fa, fb)):
+        return float("inf")
+    return max(float(np.max(np.abs(x - y))) if x.size else 0.0 for x, y in zip(fa, fb))
+
+
 def copy_C(C, uhf):
     return [np.array(C[0], dtype=float), np.array(C[1], dtype=float)] if uhf else np.array(C, dtype=float)
 
@@ -541,6 +553,27 @@ class Combo:
             if e_cas > e_det + 1e-9:
                 raise RuntimeError(f"oracle: CAS energy {e_cas} above determinant energy {e_det} for {caser}")
 
+            # ---- real code: the three ways of replacing the orbitals must give the same integrals ---------------------
+            alt_routes = {}
+            if rot != "id":
+                try:
+                    mol.get_active_space_integrals()              # integrals have been evaluated at the old orbitals
+                    # (c) the live array returned by mol.mo_coeff modified in place, then assigned back
+                    live = mol.mo_coeff
+                    if uhf:
+                        live[0][...] = C[0]
+                        live[1][...] = C[1]
+                    else:
+                        live[...] = C
+                    mol.mo_coeff = live
+                    alt_routes["live-array-modified-in-place"] = mol.get_active_space_integrals()
+                    self._restore()
+                    mol.get_active_space_integrals()
+                    # (b) explicit argument, stored orbitals untouched
+                    alt_routes["explicit-mo_coeff-argument"] = mol.get_active_space_integrals(mo_coeff=copy_C(C, uhf))
+                except Exception as e:
+                    self.bad("get_active_space_integrals", "exception", sigr, caser, {"err": repr(e)[:300]})
+                self._restore()
             # ---- real code: set orbitals, build the fermionic Hamiltonian ---------------------------------------------
             try:
                 mol.mo_coeff = C
@@ -550,6 +583,13 @@ class Combo:
                 self.bad("fermionic_hamiltonian", "exception", sigr, caser, {"err": repr(e)[:300]})
                 self._restore()
                 continue
+            if alt_routes:
+                base = mol.get_active_space_integrals()
+                for rname, got in alt_routes.items():
+                    acc.ev()
+                    d = ints_distance(base, got)
+                    if d > 1e-9:
+                        self.bad("rotation_routes", f"integrals-differ-from-setter-route/{rname}", sigr, caser, {"max_abs_diff": d})
             nontrivial_base = bool(any(part["frozen_occ"]) or any(part["frozen_virt"]) or self.ref != "rhf"
                                    or self.polarised or rot != "id" or (e_det - e_cas) > 1e-6)
 
